@@ -80,7 +80,7 @@ REQUIRED_CLASSES = [
     'sense_clockwise', 'sense_anticlockwise', 'ratio_subharmonic', 'ratio_one', 'ratio_harmonic',
     'slit_spans_tdc', 'slit_negative_begin', 'opening_before_pulse', 'opening_straddles_pulse_time',
     'phase_multi_turn', 'unit_rad', 'unit_kHz', 'unit_per_min', 'dtype_int64',
-    'direct_ok', 'fdc_npulses_1_ok', 'fdc_npulses_ge2_run',
+    'direct_ok', 'twin_from_same_variables_ok', 'fdc_npulses_1_ok', 'fdc_npulses_ge2_run',
     'ratio_rejected_ValueError', 'ratio_near_integer_accepted',
     'overlap_plain_rejected', 'begin_gt_end_rejected', 'overlap_tdc_case_run',
     'fdc_mixed_frequency_units_run', 'scratch_label_differential_identical',
@@ -381,6 +381,23 @@ def check_config(rec, case, slits_deg, *, beam, phase, amode, freq_value, funit,
     if ok is not None:
         rec.cls('direct_ok')
         rec.nontrivial += 1
+
+    if first or (phase != 0 and amode != 'deg'):
+        # a twin disk built from the very same Variable objects (other sense of rotation), after the first chopper has
+        # been used: the first chopper's methods may not have changed the caller's variables
+        rec.states += 1
+        rec.transitions += 2
+        try:
+            twin = DiskChopper(axle_position=ch.axle_position, frequency=-ch.frequency, beam_position=ch.beam_position, phase=ch.phase,
+                               slit_begin=ch.slit_begin, slit_end=ch.slit_end)
+            fv2 = twin.frequency.value.item() if hasattr(twin.frequency.value, 'item') else twin.frequency.value
+            disk2 = _disk(slits_deg, beam, phase, fv2, funit)
+            o2, c2 = _seconds(twin.time_offset_open(pulse_frequency=pf)), _seconds(twin.time_offset_close(pulse_frequency=pf))
+        except ValueError as e:
+            rec.viol('DiskChopper.__init__', 'twin_from_same_variables_rejected', f'{str(e)[:100]}', **sub0)
+        else:
+            if judge(rec, 'DiskChopper.time_offset_open_close/twin_from_same_variables', disk2, o2, c2, t_pulse, sub0) is not None:
+                rec.cls('twin_from_same_variables_ok')
 
     site = 'Chopper.from_disk_chopper'
     for npulses in npulses_list:
